@@ -72,12 +72,13 @@ PassOK(c, str, p) ==
 TraceList ==
   /\ IsEvent("list")
   /\ LET e == Trace[l]
-         c == [kind |-> e.kind, a |-> e.a, k |-> e.k, node |-> Conv(e.node)]
-         s == Stream(c.node, c.a, c.kind)
+         c == [kind |-> e.kind, a |-> e.a, k |-> e.k, cut |-> e.cut, node |-> Conv(e.node)]
+         s == Run(c)
          s2 == Again(c.node, c.a, c.kind)
          first == [k |-> e.k, reqs |-> e.reqs, calls |-> e.calls, after |-> e.after, runaway |-> e.runaway]
          rc == [j \in 1..Len(e.calls) |-> RecordedCall(e.calls[j])]
      IN /\ PassOK(c, s, first)
+        /\ e.cut >= 0 => e.more = <<>>     \* (a listing whose context is done is run once)
         /\ \A j \in 1..Len(e.more) : PassOK(c, s2, e.more[j])
         /\ cfg' = c /\ stream' = s /\ i' = Len(Observed(s, c.k)) /\ calls' = rc /\ nreq' = Len(e.reqs) /\ st' = FinOf(c, rc)
   /\ l' = l + 1
